@@ -4,6 +4,8 @@ SEQX = {"name": "seqx-chan", "crate": "seqx", "bin": "seqx", "kind": "verif", "a
         "about": "E2: exhaustive single-thread operation/poll/drop histories on the real channels vs a nondeterministic FIFO reference model (stateless DFS, history = state)"}
 SEQX_ASAN = {"name": "seqx-chan-asan", "crate": "seqx", "bin": "seqx", "kind": "asan", "args": ["--space", "quick"], "tiers": ("thorough",),
              "about": "E2 under AddressSanitizer: the quick space re-executed with every heap access checked"}
+SEQX_TOPIC = {"name": "seqx-topic", "crate": "seqx", "bin": "seqx", "kind": "verif", "args": ["--suite", "topic"],
+              "about": "E2: exhaustive subscribe/unsubscribe/send/recv/clone/close/drop/convert histories on the topic channel vs a routing model"}
 POLICYX = {"name": "policyx", "crate": "policyx", "bin": "policyx", "kind": "verif", "args": [],
            "about": "E2: exhaustive call sequences on each public eviction policy vs a bookkeeping model"}
 IOCX = {"name": "iocx", "crate": "iocx", "bin": "iocx", "kind": "verif", "args": [],
@@ -78,8 +80,18 @@ CHECKS = {
     "C01": chan("every sequential API program up to the bound delivers exactly the values whose send succeeded, hands back failed ones, and failed operations change nothing — decided on every history, not sampled", "§4 C01, §2 E2"),
     "C02": chan("in every explored history without overlapping operations the channel equals a FIFO queue step by step (single, batch, in-place, across ring wrap / slab boundaries reached by warm-ups)", "§4 C02, §2 E2"),
     "C03": chan("try_send succeeds exactly when the model queue is neither full nor closed, len()/is_full()/capacity() agree with the model after every step, for capacities 1..3, rendezvous and oneshot", "§4 C03, §2 E2"),
-    "C04": chan("every order of clone/close/drop/convert on ≤2 handles per side within the bound: drain then Disconnected, Closed hands the value back, closed handles reject every form, close is idempotent", "§4 C04, §2 E2"),
+    "C04": chan("every order of clone/close/drop/convert on ≤2 handles per side within the bound: drain then Disconnected, Closed hands the value back, closed handles reject every form, close is idempotent (point-to-point flavours and topic)", "§4 C04, §2 E2", extra_jobs=(SEQX_TOPIC,)),
     "C06": chan("idle-stall probe after every explored history: when no task is runnable no pending future/stream may be able to complete; cancellation at every point of every history loses/duplicates nothing", "§4 C06, §2 E2"),
+    "C08": {
+        "jobs": [SEQX_TOPIC],
+        "level": "model_checking",
+        "level_text": "every history up to the depth over subscribe/unsubscribe (2 topics), send, try_recv/recv_timeout, clone/close/drop/convert of ≤2 sender and ≤2 receiver handles, mailbox capacity 1–2, against a routing model (subscription relation, bounded drop-newest mailboxes, live sender-handle count)",
+        "level_note": "histories only: interleavings of publishing with subscription changes are NOT explored — the topic path is built on papaya, parking_lot and std threads, which neither loom nor the lock hooks intercept (DESIGN §4 C08, §8)",
+        "technique": "stateless exhaustive DFS over operation histories of the real topic channel vs reference routing model",
+        "design_ref": "§4 C08",
+        "rule": "all histories up to depth d over the alphabet above, each re-executed on a fresh channel and compared step by step with the routing model; non-trivial = at least one message received",
+        "assumptions": ["single thread; async receivers are driven through try_recv (their futures are covered by the mailbox unit of C06 only)"],
+    },
     "C09": chan("drop ledger after every explored history and every teardown order in the alphabet: each payload instance dropped exactly once; the quick space is re-run under AddressSanitizer in the thorough tier", "§4 C09, §2 E2", extra_jobs=(SEQX_ASAN,)),
     "C11": cache("every read API on every explored history returns nothing or the latest live value of its own key; or_insert inserts at most once; compute applies once", "§5 C11"),
     "C12": cache("every read API at every explored virtual time: never an entry at/after its expiry; unbounded caches never lose a live entry however many maintenance passes run", "§5 C12"),
